@@ -23,6 +23,9 @@ class Ctx:
     """Collects obligations, violations and evidence for one property run."""
 
     def __init__(s, prop, tier, repo, seed, only=None):
+        s.config = "core"   # which extraction the rules see when they ask for facts
+        s.prefix = ""       # key prefix of a secondary pass (e.g. "pagable/")
+        s.lenient = False   # secondary passes do not enforce instance floors
         s.prop = prop
         s.tier = tier
         s.repo = repo
@@ -52,6 +55,7 @@ class Ctx:
 
     # ---- facts
     def facts(s, config="core"):
+        config = s.config
         if config not in s._facts:
             d, info = extract.extract(s.repo, config)
             s.extractions.append(info)
@@ -70,6 +74,7 @@ class Ctx:
         """one obligation discharged"""
         if s.only and (rule, key) != s.only:
             return
+        key = s.prefix + key
         r = s._rule(rule)
         r["instances"] += 1
         r["discharged"] += 1
@@ -83,17 +88,20 @@ class Ctx:
         """one obligation violated. key must not contain line numbers."""
         if s.only and (rule, key) != s.only:
             return
+        full = "%s:%s" % (rule, key)  # known findings are keyed without the pass prefix
+        key = s.prefix + key
         r = s._rule(rule)
         r["instances"] += 1
         s.obligations += 1
         s.instances.add((rule, key))
-        full = "%s:%s" % (rule, key)
         where = fn.loc(line) if fn is not None else None
-        rec = dict(property=s.prop, rule=rule, key=key, full_key=full, what=what, where=where,
+        rec = dict(property=s.prop, rule=rule, key=key, full_key=full if not s.prefix else "%s:%s" % (rule, key),
+                   known_key=full, what=what, where=where,
                    function=fn.qpath if fn is not None else None, expected=expected, path=path)
         if full in s.known:
             r["known"] += 1
-            s.known_hits.append(rec)
+            if not any(h["known_key"] == full for h in s.known_hits):
+                s.known_hits.append(rec)
         else:
             r["violations"] += 1
             s.viol.append(rec)
@@ -109,7 +117,7 @@ class Ctx:
         """instance-count floor (fail closed). `floor` is the number counted on the pinned tree. For mechanism
         anchors (every instance is needed) the floor is exact; for inventories of dangerous constructs, where fewer
         sites are harmless, the check only guards against a vacuous matcher (75% of the counted number)."""
-        if s.only:
+        if s.only or s.lenient:
             return
         need = max(1, (floor * 3) // 4) if inventory else floor
         s.info.setdefault("floors", {})["%s %s" % (rule, what)] = dict(count=n, counted_on_pinned_tree=floor, required=need)
@@ -133,27 +141,37 @@ def run_property(prop, tier, repo, seed, only=None):
     except ModuleNotFoundError:
         print("no rule module for %s" % prop, file=sys.stderr)
         return 2
-    fatal = None
-    try:
-        mod.run(ctx)
-    except AnchorMissing as e:
-        ctx.bad("anchor", "anchor-missing:" + str(e)[:120].replace("\n", " "), "anchor-missing: %s" % e)
-    except RuntimeError as e:
-        fatal = str(e)
-        ctx.bad("extract", "extraction-failed", "fact extraction failed: %s" % str(e)[:2000])
-    except Exception:
-        fatal = traceback.format_exc()
-        ctx.bad("internal", "checker-error", "checker raised: %s" % fatal[-1500:])
+    passes = [("core", "", False)]
+    if tier == "thorough" and not only:
+        passes = [("full", "", False), ("pagable", "pagable/", True), ("nodebug", "nodebug/", True)]
+    for config, prefix, lenient in passes:
+        ctx.config, ctx.prefix, ctx.lenient = config, prefix, lenient
+        try:
+            mod.run(ctx)
+        except AnchorMissing as e:
+            ctx.bad("anchor", "anchor-missing:" + str(e)[:120].replace("\n", " "), "anchor-missing: %s" % e)
+        except RuntimeError as e:
+            ctx.bad("extract", "extraction-failed", "fact extraction failed: %s" % str(e)[:2000])
+        except Exception:
+            ctx.bad("internal", "checker-error", "checker raised: %s" % traceback.format_exc()[-1500:])
+    ctx.prefix, ctx.lenient = "", False
+    if tier == "thorough" and not only and os.path.realpath(repo) == "/repo":
+        try:
+            import thorough
+            thorough.witnesses(ctx)
+            thorough.selftests(ctx)
+        except Exception:
+            ctx.note("thorough extras failed: " + traceback.format_exc()[-800:])
     wall = time.time() - t0
 
     # stale known findings (listed but not observed) are reported, never an error
-    stale = [k for k in ctx.known if k not in {v["full_key"] for v in ctx.known_hits}]
+    stale = [k for k in ctx.known if k not in {v["known_key"] for v in ctx.known_hits}]
 
     outdir = os.path.join(VERIF, "out", prop)
     os.makedirs(outdir, exist_ok=True)
     lines = []
     for v in ctx.known_hits:
-        lines.append("KNOWN-FINDING: property=%s %s %s" % (prop, v["full_key"], ctx.known[v["full_key"]]["what"]))
+        lines.append("KNOWN-FINDING: property=%s %s %s" % (prop, v["known_key"], ctx.known[v["known_key"]]["what"]))
     for v in ctx.viol:
         safe = "".join(ch if ch.isalnum() or ch in "._-" else "_" for ch in v["full_key"])[:120]
         rp = os.path.join(outdir, safe + ".json")
@@ -186,7 +204,8 @@ def run_property(prop, tier, repo, seed, only=None):
             trusted_base=["rustc nightly front end (type check, MIR build, Instance::try_resolve)",
                           "svfacts fact printer", "svrules kernels (CFG reachability, call graph)"],
             not_decided=undecided,
-            known_findings=[v["full_key"] for v in ctx.known_hits],
+            known_findings=[v["known_key"] for v in ctx.known_hits],
+            witnesses=ctx.info.pop("witnesses", None),
             stale_known_findings=stale,
             fixed_findings=sorted(ctx.fixed),
             extractions=ctx.extractions,
